@@ -218,7 +218,8 @@ class Inliner:
             ti = 0
 
             def pure(e):
-                return isinstance(e, (ast.Name, ast.Constant))
+                # names, constants and attribute chains (method look-ups): the same purity the alias normal form assumes
+                return isinstance(e, (ast.Name, ast.Constant)) or (isinstance(e, ast.Attribute) and _pure_chain(e))
 
             def temp(e):
                 nonlocal ti
@@ -342,6 +343,8 @@ class Inliner:
         nested_defs = [x for b in body for x in ast.walk(b) if isinstance(x, FUNC_TYPES + (ast.Lambda,))]
         returns = [r for r in returns if not any(r in list(ast.walk(d)) and r is not d for d in nested_defs)]
         only_tail = len(returns) == 0 or (len(returns) == 1 and body and body[-1] is returns[0])
+        # `return helper(...)`: a return of the helper *is* a return of the caller (the helper's own with / finally blocks come along)
+        return_site = isinstance(s, ast.Return) and (s.value is c or (isinstance(s.value, ast.Await) and s.value.value is c)) and not only_tail
 
         class R(ast.NodeTransformer):
             def visit_Name(self, n):
@@ -362,6 +365,8 @@ class Inliner:
 
             def visit_Return(self, n):
                 self.generic_visit(n)
+                if return_site:
+                    return n
                 val = n.value if n.value is not None else ast.Constant(value=None)
                 asg = ast.Assign(targets=[ast.Name(id=ret, ctx=ast.Store())], value=val)
                 ast.copy_location(asg, n)
@@ -404,6 +409,14 @@ class Inliner:
         for b in body:
             flat.extend(b if isinstance(b, list) else [b])
         init = ast.Assign(targets=[ast.Name(id=ret, ctx=ast.Store())], value=ast.Constant(value=None), lineno=c.lineno, col_offset=c.col_offset)
+        if return_site:
+            fall = ast.Return(value=ast.Constant(value=None))
+            ast.copy_location(fall, s)
+            block = pre + flat + [fall]
+            for b in block:
+                ast.fix_missing_locations(b)
+            self._spliced.setdefault(g.key, set()).add(f.key)
+            return block
         if only_tail:
             block = pre + flat
         else:
